@@ -155,8 +155,10 @@ def _random_tracks(draw, ctx):
             tick += max(1, gap)
         mask = draw(st.one_of(st.integers(0, 31), st.sampled_from([1, 2, 4, 8, 16, 0])))
         fl = draw(st.integers(0, 7))
-        tap = 0 if fl in (5, 7) else None
-        forced = 0 if fl in (6, 7, 4) and i > 0 else None
+        # the length written on a flag line means nothing, whatever it is
+        flen = st.sampled_from([0, 0, 0, 1, 37, thr, thr + 1, 10 * res, 10 ** 6])
+        tap = draw(flen) if fl in (5, 7) else None
+        forced = draw(flen) if fl in (6, 7, 4) and i > 0 else None
         sus = draw(st.one_of(st.just(0), st.just(0), st.sampled_from([1, thr, thr + 1, 2 * thr, 10 * res]),
                              st.integers(0, 3 * thr + 3)))
         lens = [sus] * 5
@@ -183,6 +185,9 @@ def _random_tracks(draw, ctx):
                         + [(it[0], 1, k, it) for k, it in enumerate(sp)]
                         + [(it[0], 2, k, it) for k, it in enumerate(te)], key=lambda x: (x[0], x[1], x[2]))
         items = [x[3] for x in merged]
+    lifted = G.lift_items(draw, items, res, allow64=res >= 960)
+    if lifted:
+        items, tempo, _ = lifted
     return {"res": res, "items": items, "tempo": tempo, "header": draw(st.sampled_from(S.HEADER_LIST)),
             "fmt": draw(st.one_of(st.just(0), st.just(0), st.integers(1, 10 ** 6)))}
 
